@@ -23,6 +23,10 @@ def obligations(tier):
     # the other in the same process - each on ITS OWN wall clock (buckets are counted from midnight of the stamp's zone)
     for tf in (("H1", "H4", "D1") if tier == "quick" else ("T45", "H1", "H4", "H5", "D1", "D2")):
         obs.append(Ob(f"aware-timestamps/{tf}/three zones in one process", dict(tf=tf, n=6), CFG, fn="run_aware", weight=20, budget_s=600))
+    # sub-second stamps: the library documents that microseconds are removed (clean_timestamp), so a stream stamped with
+    # fractions of a second collapses like the same stream truncated to whole seconds - from the first candle on
+    for tf in (("T5", "H1") if tier == "quick" else ("S10", "T1", "T5", "H1", "D1")):
+        obs.append(Ob(f"sub-second-timestamps/{tf}", dict(tf=tf, n=6), CFG, fn="run_subsecond", weight=20, budget_s=600))
     return obs
 
 
@@ -31,6 +35,35 @@ def check_against_ref(ctx, label, candles, ref):
     if not ctx.require(f"{label}:bucket-count", len(got) == len(ref), f"library has {len(got)} collapsed candles, reference {len(ref)}"):
         return
     ctx.equal(f"{label}:buckets==reference", got, ref_view(ref))
+
+
+def run_subsecond(ctx, P):
+    from datetime import datetime, timedelta
+    _, _, Candle, CandleManager, Hexital = lib()
+    tf, n = P["tf"], P["n"]
+    tfs = tf_secs(tf)
+    vals = [sym_ohlcv(ctx, i) for i in range(n)]
+    edge = datetime(2024, 3, 4, 9, 0) + timedelta(seconds=tfs)          # a bucket edge
+    # first candle a quarter of a second after an edge, the next within the same second, then around the following edges
+    offs = [0.25, 0.55, tfs - 0.5, tfs + 0.000001, tfs + 0.999999, 2 * tfs + 1.5][:n]
+    stamps = [edge + timedelta(seconds=o) for o in offs]
+    whole = [t.replace(microsecond=0) for t in stamps]
+    wall = [int((t - datetime(1970, 1, 1)).total_seconds()) for t in whole]
+    cs = [Candle(o, h, l, c, v, timestamp=t) for (o, h, l, c, v), t in zip(vals, stamps)]
+    cs_whole = [Candle(o, h, l, c, v, timestamp=t) for (o, h, l, c, v), t in zip(vals, whole)]
+    exp = ref_view(ref_resample(ctx, cs_whole, wall, tfs))
+    view = lambda lst: [dict(ts=int((c.timestamp - datetime(1970, 1, 1)).total_seconds()), open=c.open, high=c.high, low=c.low, close=c.close, volume=c.volume) for c in lst]
+    for start in (0, 1, 2):          # the stream may begin at any of these candles
+        sub, sub_exp = cs[start:], ref_view(ref_resample(ctx, cs_whole[start:], wall[start:], tfs))
+        m = CandleManager(clone(sub), timeframe=tf)
+        if start == 0:
+            ctx.observe("collapsed", view(m.candles))
+        ctx.equal(f"construction from candle {start}: buckets==reference over the whole-second stream", view(m.candles), sub_exp)
+        ctx.require(f"construction from candle {start}: no fraction of a second left on a label", all(c.timestamp.microsecond == 0 for c in m.candles))
+        m2 = CandleManager([], timeframe=tf)
+        for c in clone(sub):
+            m2.append(c)
+        ctx.equal(f"appended from candle {start}: buckets==reference over the whole-second stream", view(m2.candles), sub_exp)
 
 
 def run_aware(ctx, P):
